@@ -63,6 +63,17 @@ def install(eng):
         rest = SliceRef(s.seq, z3.simplify(s.start + 1), z3.simplify(ln - 1))
         return opt(eng, oty, Struct('()', {0: Cell(first), 1: Cell(rest)}, None))
     m(r'^core::slice::<impl \[.*\]>::split_first(_mut)?$', m_split_first)
+
+    def m_split_last(eng, args, ctx):
+        s = as_slice(eng, args[0])
+        ln = eng.slice_len(s)
+        oty = norm_ty(ctx.dest_ty) if ctx.dest_ty else 'Option'
+        if not eng.fork_bool(z3.UGT(ln, 0)):
+            return opt(eng, oty)
+        last = Ref(eng.seq_cell(s.seq, z3.simplify(s.start + ln - 1)))
+        rest = SliceRef(s.seq, s.start, z3.simplify(ln - 1))
+        return opt(eng, oty, Struct('()', {0: Cell(last), 1: Cell(rest)}, None))
+    m(r'^core::slice::<impl \[.*\]>::split_last(_mut)?$', m_split_last)
     m(r'^core::slice::<impl \[.*\]>::is_empty$', lambda e, a, c: as_bool(z3.simplify(e.slice_len(as_slice(e, a[0])) == 0)))
 
     def m_split_at(eng, args, ctx):
@@ -556,6 +567,15 @@ def install(eng):
         v = payload0(eng, r, 'Ok')
         return EnumV(oty, 0, {'Ok': {0: Cell(eng.call_value(ctx.frame, f, [v]))}}, None, ed)
     m(r'^(std::result::|core::result::)?Result::map$', m_res_map)
+
+    def m_res_and_then(eng, args, ctx):
+        r, f = args
+        ed = eng.P.enum_def('Result')
+        oty = norm_ty(ctx.dest_ty) if ctx.dest_ty else 'Result'
+        if variant_is(eng, r, 1):
+            return EnumV(oty, 1, {'Err': {0: Cell(payload0(eng, r, 'Err'))}}, None, ed)
+        return eng.call_value(ctx.frame, f, [payload0(eng, r, 'Ok')])
+    m(r'^(std::result::|core::result::)?Result::and_then$', m_res_and_then)
     def m_opt_and_then(eng, args, ctx):
         e, f = args
         oty = norm_ty(ctx.dest_ty) if ctx.dest_ty else 'Option'
